@@ -63,6 +63,8 @@ class PlainFormatter(DefaultFormatter):
 
 
 class C03System(BuilderSystem):
+    deep = True
+
     def __init__(self, label, bounds, families, translate=None, rebound=None, hooks=False, start=None, formatter=False):
         self.label = label
         self.formatter = formatter
